@@ -113,6 +113,10 @@ def run_unit(repo, unit, contracts_dir, workdir, rlimit=None, extra_args=(), see
     if res.get('degraded') is not None:
         if res['status'] == 'ok':
             res['reason'] = 'verified without %d annotation(s) whose anchors are gone: %s' % (len(res['degraded']), '; '.join(res['degraded'])[:400])
+        elif res['status'] == 'violation' and not res.get('degraded_hint_lost', True):
+            # only call-shape rewrites found nothing to rewrite (no proof annotation was dropped): the emitted
+            # bodies are exactly the source with every hint in place, so a failed baseline obligation stands
+            res['reason'] = 'note: %s' % '; '.join(res['degraded'])[:300]
         else:
             # without the lost hints a failed proof says nothing: undecided, exactly as before the second attempt
             why = res['status'] if res['status'] == 'violation' else res['reason'][:200]
@@ -146,6 +150,7 @@ def _run_unit(repo, unit, contracts_dir, workdir, rlimit=None, extra_args=(), se
             res['wall_s'] = time.time() - t0
             return res
         res['degraded'] = list(asm.degraded)
+        res['degraded_hint_lost'] = asm.degraded_hint_lost
         res['lost_anchor'] = lost
     text = asm.text() + CANARY
     os.makedirs(workdir, exist_ok=True)
